@@ -501,6 +501,25 @@ func (g *Gen) genNew(t *rapid.T) *Op {
 }
 
 func (g *Gen) genNewBatch(t *rapid.T) *Op {
+	op := g.genNewBatch0(t)
+	// now and then the batch callback opens a query and leaves it open when the operation returns
+	m := g.m()
+	if g.P.OpenQ && m.OpenQ < min(g.P.MaxOpenQ, 60) && op.N > 0 && (op.P == PWorld && op.Fn || op.P == PMap && op.Init == InitFn) && rapid.IntRange(0, 5).Draw(t, "keepQueryOpen") == 0 {
+		var fl []int
+		for fi, f := range m.Filters {
+			if f.Inst >= 0 && !f.Stale && len(g.qrelComps(f)) == 0 {
+				fl = append(fl, fi)
+			}
+		}
+		if len(fl) > 0 {
+			g.qSeq++
+			op.Acts = append(op.Acts, Op{K: "qOpenKeep", F: rapid.SampledFrom(fl).Draw(t, "keptFilter"), Q: g.qSeq})
+		}
+	}
+	return op
+}
+
+func (g *Gen) genNewBatch0(t *rapid.T) *Op {
 	op := &Op{K: "newBatch", N: rapid.IntRange(1, 9).Draw(t, "count")}
 	if g.P.BigBatches && rapid.IntRange(0, 3).Draw(t, "bigBatch") == 0 {
 		op.N = rapid.IntRange(60, 90).Draw(t, "bigCount")
@@ -1401,7 +1420,11 @@ func (g *Gen) fixup(op *Op) *Op {
 //  3. 1-4 entities with S (and sometimes one extra component: a second source table)
 //  4. the batch operation through the drawn instantiation.
 func (g *Gen) genScenario(t *rapid.T) *Op {
-	if k := rapid.IntRange(0, 5).Draw(t, "relationScenario"); k == 0 {
+	if k := rapid.IntRange(0, 7).Draw(t, "relationScenario"); k >= 6 {
+		if op := g.genIDPoolScenario(t, k == 7); op != nil {
+			return op
+		}
+	} else if k == 0 {
 		if op := g.genRelCycle(t); op != nil {
 			return op
 		}
@@ -1644,4 +1667,43 @@ func (g *Gen) chainRels(t *rapid.T, op *Op) *Op {
 		op.FS.Chain = rapid.Bool().Draw(t, "chainedRelations")
 	}
 	return op
+}
+
+// genIDPoolScenario drives the ID pools behind cached filters (grows in steps of 128) or observers (steps of 32) past
+// their second growth while another filter/observer stays registered: B goes through X registration cycles, A is
+// registered, B goes through enough further cycles that the pool grows twice. Every registration takes a fresh ID.
+func (g *Gen) genIDPoolScenario(t *rapid.T, observers bool) *Op {
+	m := g.m()
+	var q []*Op
+	if observers {
+		if len(m.Obs) > 6 {
+			return nil
+		}
+		a, b := len(m.Obs), len(m.Obs)+1
+		q = append(q, g.genObs(t), g.genObs(t))
+		for _, o := range q {
+			if o == nil || o.K != "obsNew" {
+				return nil
+			}
+			o.Mode = 0 // created unregistered
+		}
+		x := rapid.IntRange(30, 62).Draw(t, "cyclesBefore")
+		q = append(q, &Op{K: "obsReg", Q: b, Mode: 1, N: x}, &Op{K: "obsReg", Q: a, Mode: 1}, &Op{K: "obsReg", Q: b, Mode: 0, N: rapid.SampledFrom([]int{40, 70, 100}).Draw(t, "cyclesAfter")})
+		if rapid.Bool().Draw(t, "thenUnregisterA") {
+			q = append(q, &Op{K: "obsReg", Q: a, Mode: 0}, &Op{K: "obsReg", Q: b, Mode: 1})
+		}
+	} else {
+		if len(m.Filters) > 6 {
+			return nil
+		}
+		a, b := len(m.Filters), len(m.Filters)+1
+		fa, fb := g.genFilter(t), g.genFilter(t)
+		if fa == nil || fb == nil || fa.FS.Inst < 0 || fb.FS.Inst < 0 {
+			return nil
+		}
+		x := rapid.IntRange(126, 250).Draw(t, "cyclesBefore")
+		q = append(q, fa, fb, &Op{K: "filterReg", F: b, Mode: 1, N: x}, &Op{K: "filterReg", F: a, Mode: 1}, &Op{K: "filterReg", F: b, Mode: 0, N: rapid.SampledFrom([]int{140, 300}).Draw(t, "cyclesAfter")})
+	}
+	g.queue = q[1:]
+	return q[0]
 }
